@@ -11,8 +11,11 @@ RULE = ("Hypothesis-drawn retardances and orientation angles in [-50, 50] rad (p
         "diattenuations in [0,1] incl. the end points, vortex charges +-1..+-6 and half-integers, rotations, theta arrays of "
         "0-3 leading dimensions (random angles or the azimuth of a centred grid), shape= batching of every constructor, "
         "random complex 2x2 matrices / random unitaries (harness QR) in batches of 0-3 leading dimensions expanded from a "
-        "drawn integer, and every routine of supported_propagation_funcs wrapped *locally* by jones_adapter (the global "
-        "add_jones_propagation is never called).  Oracles are harness-side numpy: J J^H = I, P^2 = P, Malus cos^2, the closed "
+        "drawn integer, and every routine of supported_propagation_funcs wrapped *locally* by jones_adapter; clause add_jones_propagation "
+        "also installs the adapters globally through sequences of 1-4 add_jones_propagation(...) calls (no argument / any sub-list of the "
+        "supported names incl. the empty one, list or tuple, positional or keyword; overlapping, repeated and growing requests) and checks "
+        "after every call each routine requested so far, module state of prysm.x.polarization being rebuilt (reload) before and the "
+        "attributes of prysm.propagation restored after every case.  Oracles are harness-side numpy: J J^H = I, P^2 = P, Malus cos^2, the closed "
         "form R(-t) diag(1, x) R(t) with the harness' own rotation matrix, M(J1 J2) = M(J1) M(J2), M M^T = I and M00 = 1 for "
         "unitary J, M_ij = tr(s_i J s_j J^H)/2 up to the handedness (S3 sign) convention, sum c_k s_k = J, element-by-element "
         "loops for everything batched, per-component propagation for the adapter.  Non-trivial = generic (non-special) angle / "
@@ -751,6 +754,124 @@ def check_prop(case, ctx):
     _unchanged(ctx, E, Ekeep, 'apply_polarization_optic', 'the Jones optic')
 
 
+# ---- add_jones_propagation: sequences of calls ---------------------------------------------------
+def strat_global(tier):
+    mx = 8 if tier == 'quick' else 16
+    ax = U.axis_len(mx, 2)
+    sub = st.lists(st.sampled_from(FUNCS), min_size=0, max_size=5, unique=True)
+    op = st.one_of(st.just('default'), sub, sub, st.sampled_from(FUNCS).map(lambda n: [n]))
+    return st.fixed_dictionaries({
+        'ops': st.lists(op, min_size=1, max_size=4), 'as_tuple': st.booleans(), 'kw': st.booleans(),
+        'shape': st.one_of(st.tuples(ax, ax).map(list), ax.map(lambda n: [n, n])), 'seed': U.seeds,
+        'Q': st.sampled_from([1, 2, 1, 3]), 'out': st.one_of(st.integers(2, mx), st.tuples(st.integers(2, mx), st.integers(2, mx)).map(list)),
+        'dx': st.sampled_from([0.1, 0.25, 1.0]), 'z': st.sampled_from([0.0, 1.0, 25.0, -3.0]),
+        'edtype': st.sampled_from(['complex128', 'complex128', 'complex64', 'float64']),
+        'elayout': st.sampled_from(['jones-last', 'jones-last', 'components-first', 'F', 'strided'])})
+
+
+def _restore_namespace(mod, snap):
+    """put every attribute of a module back to the object it was (and drop new ones)"""
+    now = vars(mod)
+    for key in [k_ for k_ in now if k_ not in snap]:
+        delattr(mod, key)
+    for key, val in snap.items():
+        if now.get(key, None) is not val:
+            setattr(mod, key, val)
+
+
+def check_global(case, ctx):
+    """after any sequence of add_jones_propagation(...) calls, every routine requested so far propagates the four Jones components independently."""
+    import importlib
+    from prysm.x import polarization as pol
+    from prysm import propagation as P
+    from vlib.core import Violation
+    snap = dict(vars(P))
+    for name in FUNCS:
+        assert not hasattr(snap[name], '__wrapped__'), 'prysm.propagation.%s is already wrapped (global monkey-patch leaked into the harness)' % name
+    # every case starts from the state of a fresh process: module-level state of prysm.x.polarization is rebuilt, the functions of
+    # prysm.propagation are the originals (and are put back whatever happens)
+    pol = importlib.reload(pol)
+    try:
+        _check_global(case, ctx, pol, P, {n_: snap[n_] for n_ in FUNCS}, Violation)
+    finally:
+        _restore_namespace(P, snap)
+        importlib.reload(pol)
+
+
+def _check_global(case, ctx, pol, P, orig, Violation):
+    shape, seed = tuple(case['shape']), case['seed']
+    edt, lay = np.dtype(case['edtype']), case['elayout']
+    ctx.require(sorted(pol.supported_propagation_funcs) == sorted(FUNCS), 'supported_propagation_funcs', 'list changed: %r' % (pol.supported_propagation_funcs,))
+    out = U.tup(case['out'])
+    args = {'focus': ((case['Q'],), {}), 'unfocus': ((case['Q'],), {}),
+            'focus_fixed_sampling': ((case['dx'], 10.0, 0.5, 0.2, out), {}), 'unfocus_fixed_sampling': ((case['dx'], 10.0, 0.5, 0.2, out), {}),
+            'angular_spectrum': ((0.5, case['dx'], case['z']), {'Q': case['Q']})}
+    E = _field(seed, shape, 80, edt, lay, 0)
+    Ekeep = E.copy()
+    low = edt == np.complex64
+    rt = 1e-4 if low else 1e-13
+    # the component-wise reference, from the routines as they were before anything was adapted
+    ref = {}
+    for name in FUNCS:
+        a, k = args[name]
+        ref[name] = [[np.asarray(ctx.call(orig[name], np.ascontiguousarray(Ekeep[..., i, j]), *a, **k)) for j in range(2)] for i in range(2)]
+    ops = case['ops']
+    names_of = [list(FUNCS) if op == 'default' else list(op) for op in ops]
+    ctx.nt(any(names_of))
+    seen = set()
+    grows = False          # a later call asks for routines that were not requested before, together with some that were
+    for nm in names_of:
+        if seen and set(nm) & seen and set(nm) - seen:
+            grows = True
+        seen |= set(nm)
+    ctx.label('calls:%d' % len(ops), 'has-default-call' if 'default' in ops else 'explicit-lists-only',
+              'later-call-overlaps-and-extends-earlier' if grows else 'no-overlapping-extension',
+              'same-routine-requested-twice' if sum(len(nm) for nm in names_of) > len(seen) else 'each-routine-requested-once',
+              'edtype:%s' % edt, 'elayout:' + lay, 'square' if shape[0] == shape[1] else 'nonsquare', 'routines-requested:%d' % len(seen))
+    requested = []
+    history = []
+    for op, nm in zip(ops, names_of):
+        if op == 'default':
+            history.append('add_jones_propagation()')
+            ctx.call(pol.add_jones_propagation)
+        else:
+            arg = tuple(nm) if case['as_tuple'] else list(nm)
+            keep = list(nm)
+            history.append('add_jones_propagation(%s%r)' % ('funcs_to_change=' if case['kw'] else '', arg))
+            if case['kw']:
+                ctx.call(pol.add_jones_propagation, funcs_to_change=arg)
+            else:
+                ctx.call(pol.add_jones_propagation, arg)
+            ctx.require(list(arg) == keep and type(arg) is (tuple if case['as_tuple'] else list), 'add_jones_propagation:argument-modified',
+                        'the list of names was changed: %r -> %r' % (keep, arg))
+        ctx.require(sorted(pol.supported_propagation_funcs) == sorted(FUNCS), 'add_jones_propagation:supported-list-modified',
+                    'supported_propagation_funcs is %r after %s' % (pol.supported_propagation_funcs, '; '.join(history)))
+        requested += [n_ for n_ in nm if n_ not in requested]
+        after = 'after ' + '; '.join(history)
+        for name in FUNCS:
+            if name not in requested:
+                continue
+            a, k = args[name]
+            fn = getattr(P, name)
+            what = 'propagation.%s(E%s %s %s, *%r, **%r) %s' % (name, list(E.shape), edt, lay, a, k, after)
+            try:
+                got = np.asarray(ctx.call(fn, E, *a, **k))
+            except Violation as v:
+                ctx.fail('add_jones_propagation:%s:polarised-field-not-propagated' % name, '%s: %s' % (what, v.msg))
+            comp = ref[name]
+            U.check_shape(got, comp[0][0].shape + (2, 2), 'add_jones_propagation:%s:polarised-field-not-propagated' % name, what)
+            sc = max(float(np.max(np.abs(c_))) for row in comp for c_ in row)
+            for i in range(2):
+                for j in range(2):
+                    U.check_close(got[..., i, j], comp[i][j], rt, 'add_jones_propagation:%s:component' % name,
+                                  '%s component [%d,%d] vs propagating that component alone' % (what, i, j), atol=rt * sc)
+            # a scalar (2-D) field still goes through the routine as before
+            s2 = np.ascontiguousarray(Ekeep[..., 1, 0])
+            U.check_close(np.asarray(ctx.call(fn, s2, *a, **k)), comp[1][0], rt, 'add_jones_propagation:%s:passthrough' % name,
+                          '2-D input, %s' % what, atol=rt * sc)
+        _unchanged(ctx, E, Ekeep, 'add_jones_propagation', 'the polarised field')
+
+
 CLAUSES = [
     HypClause('retarders', strat_retarder, check_retarder, examples={'quick': 500, 'thorough': 3000}, shards={'quick': 2, 'thorough': 8}),
     HypClause('vortex', strat_vortex, check_vortex, examples={'quick': 400, 'thorough': 2500}, shards={'quick': 2, 'thorough': 8}),
@@ -758,4 +879,5 @@ CLAUSES = [
     HypClause('mueller', strat_mueller, check_mueller, examples={'quick': 300, 'thorough': 2000}, shards={'quick': 2, 'thorough': 8}),
     HypClause('pauli', strat_pauli, check_pauli, examples={'quick': 400, 'thorough': 2000}, shards={'quick': 1, 'thorough': 4}),
     HypClause('propagation', strat_prop, check_prop, examples={'quick': 250, 'thorough': 1500}, shards={'quick': 2, 'thorough': 8}),
+    HypClause('add_jones_propagation', strat_global, check_global, examples={'quick': 150, 'thorough': 1000}, shards={'quick': 1, 'thorough': 4}),
 ]
